@@ -40,12 +40,19 @@ type entryCfg struct {
 	Claim       string         `json:"claim,omitempty"`
 	ExpectPanic bool           `json:"expect_panic,omitempty"`
 	BudgetS     int            `json:"budget_s,omitempty"`
+	Pkg         string         `json:"pkg,omitempty"` // package dir of this entry (default: the property's pkg)
+}
+
+type morePkg struct {
+	Pkg   string   `json:"pkg"`
+	Files []string `json:"files"`
 }
 
 type propCfg struct {
 	Pkg         string     `json:"pkg"`   // package dir relative to /repo, e.g. "base"
 	Files       []string   `json:"files"` // harness files under /verif/harness
 	Entries     []entryCfg `json:"entries"`
+	More        []morePkg  `json:"more,omitempty"` // further packages with their harness files
 	Tags        []string   `json:"tags,omitempty"`
 	Assumptions []string   `json:"assumptions,omitempty"`
 	BoundsText  string     `json:"bounds_text,omitempty"`
@@ -105,17 +112,13 @@ func main() {
 	if *workers == 0 {
 		*workers = runtime.NumCPU()
 	}
-	var index map[string]propCfg
-	b, err := os.ReadFile(filepath.Join(verifDir, "harness", "index.json"))
+	var pc propCfg
+	b, err := os.ReadFile(filepath.Join(verifDir, "harness", "index.d", *prop+".json"))
 	if err != nil {
-		fatal("%v", err)
+		fatal("unknown property %s: %v", *prop, err)
 	}
-	if err := json.Unmarshal(b, &index); err != nil {
-		fatal("index.json: %v", err)
-	}
-	pc, ok := index[*prop]
-	if !ok {
-		fatal("unknown property %s", *prop)
+	if err := json.Unmarshal(b, &pc); err != nil {
+		fatal("index.d/%s.json: %v", *prop, err)
 	}
 	var known []knownFinding
 	if b, err := os.ReadFile(filepath.Join(verifDir, "known_findings.json")); err == nil {
@@ -183,14 +186,27 @@ func (c *checker) prepare() {
 		fatal("%v", err)
 	}
 	c.overlay[filepath.Join(repoDir, "util", "verifrt", "verifrt.go")] = rt
-	for _, f := range c.pc.Files {
-		b, err := os.ReadFile(filepath.Join(verifDir, "harness", f))
-		if err != nil {
-			fatal("%v", err)
+	for _, g := range c.groups() {
+		for _, f := range g.Files {
+			b, err := os.ReadFile(filepath.Join(verifDir, "harness", f))
+			if err != nil {
+				fatal("%v", err)
+			}
+			c.overlay[filepath.Join(repoDir, g.Pkg, "zz_verif_"+strings.ToLower(filepath.Base(f)))] = b
 		}
-		c.overlay[filepath.Join(repoDir, c.pc.Pkg, "zz_verif_"+strings.ToLower(filepath.Base(f)))] = b
 	}
 	c.env = append(os.Environ(), "GOFLAGS=-mod=mod", "GOPROXY=off", "GOSUMDB=off", "GOTOOLCHAIN=local", "GOWORK=off")
+}
+
+func (c *checker) groups() []morePkg {
+	return append([]morePkg{{Pkg: c.pc.Pkg, Files: c.pc.Files}}, c.pc.More...)
+}
+
+func (c *checker) entryPkg(e entryCfg) string {
+	if e.Pkg != "" {
+		return e.Pkg
+	}
+	return c.pc.Pkg
 }
 
 func (c *checker) entryBudget(e entryCfg) time.Duration {
@@ -215,7 +231,7 @@ func (c *checker) tags() string {
 	return strings.Join(t, ",")
 }
 
-func (c *checker) load() (*symgo.Program, *ssa.Package) {
+func (c *checker) load() (*symgo.Program, map[string]*ssa.Package) {
 	cfg := &packages.Config{
 		Mode:       packages.LoadAllSyntax,
 		Dir:        repoDir,
@@ -223,7 +239,11 @@ func (c *checker) load() (*symgo.Program, *ssa.Package) {
 		BuildFlags: []string{"-modfile=" + c.modfile, "-tags=" + c.tags()},
 		Overlay:    c.overlay,
 	}
-	pkgs, err := packages.Load(cfg, "./"+c.pc.Pkg)
+	var patterns []string
+	for _, g := range c.groups() {
+		patterns = append(patterns, "./"+g.Pkg)
+	}
+	pkgs, err := packages.Load(cfg, patterns...)
 	if err != nil {
 		fatal("load: %v", err)
 	}
@@ -241,10 +261,14 @@ func (c *checker) load() (*symgo.Program, *ssa.Package) {
 	}
 	prog, spkgs := ssautil.AllPackages(pkgs, ssa.InstantiateGenerics|ssa.SanityCheckFunctions&0)
 	prog.Build()
-	if len(spkgs) != 1 || spkgs[0] == nil {
-		fatal("expected one package, got %d", len(spkgs))
+	out := map[string]*ssa.Package{}
+	for _, sp := range spkgs {
+		if sp == nil {
+			fatal("package without SSA")
+		}
+		out[strings.TrimPrefix(sp.Pkg.Path(), modPath+"/")] = sp
 	}
-	return symgo.NewProgram(prog, modPath+"/util/verifrt"), spkgs[0]
+	return symgo.NewProgram(prog, modPath+"/util/verifrt"), out
 }
 
 type replayVec struct {
@@ -269,10 +293,16 @@ func (c *checker) buildNative() error {
 		return fmt.Errorf("%s", c.binErr)
 	}
 	var sb strings.Builder
-	sb.WriteString("package main\n\nimport (\n\t\"fmt\"\n\t\"os\"\n\tp \"" + modPath + "/" + c.pc.Pkg + "\"\n)\n\n")
+	sb.WriteString("package main\n\nimport (\n\t\"fmt\"\n\t\"os\"\n")
+	alias := map[string]string{}
+	for i, g := range c.groups() {
+		alias[g.Pkg] = fmt.Sprintf("p%d", i)
+		fmt.Fprintf(&sb, "\tp%d %q\n", i, modPath+"/"+g.Pkg)
+	}
+	sb.WriteString(")\n\n")
 	sb.WriteString("func main() {\n\tswitch os.Args[1] {\n")
 	for _, e := range c.pc.Entries {
-		fmt.Fprintf(&sb, "\tcase %q:\n\t\tp.%s()\n", e.Func, e.Func)
+		fmt.Fprintf(&sb, "\tcase %q:\n\t\t%s.%s()\n", e.Func, alias[c.entryPkg(e)], e.Func)
 	}
 	sb.WriteString("\tdefault:\n\t\tfmt.Println(\"unknown entry\")\n\t\tos.Exit(5)\n\t}\n\tfmt.Println(\"VERIF-DONE\")\n}\n")
 	ov := map[string]string{}
@@ -396,6 +426,12 @@ func (c *checker) effective0(e entryCfg) entryCfg {
 		if t.BudgetS == 0 {
 			t.BudgetS = e.BudgetS
 		}
+		if t.Pkg == "" {
+			t.Pkg = e.Pkg
+		}
+		if t.MaxPaths == 0 {
+			t.MaxPaths = e.MaxPaths
+		}
 		return t
 	}
 	return e
@@ -413,7 +449,7 @@ func (c *checker) isKnown(label string) *knownFinding {
 
 func (c *checker) run(only string) int {
 	t0 := time.Now()
-	prog, pkg := c.load()
+	prog, pkgmap := c.load()
 	loadS := time.Since(t0).Seconds()
 	if c.verbose {
 		fmt.Printf("loaded in %.1fs\n", loadS)
@@ -431,6 +467,10 @@ func (c *checker) run(only string) int {
 		}
 		if e.OnlyTier != "" && e.OnlyTier != c.tier {
 			continue
+		}
+		pkg := pkgmap[c.entryPkg(e)]
+		if pkg == nil {
+			fatal("package %s not loaded", c.entryPkg(e))
 		}
 		fn := pkg.Func(e.Func)
 		if fn == nil {
